@@ -187,6 +187,7 @@ func doCheck(id, tier string) int {
 			classes[k] = append(classes[k], f)
 		}
 		minimised := 0
+		reported := 0
 		for _, k := range order {
 			fs := classes[k]
 			if kf := known.match(id, k.kind, k.site); kf != nil {
@@ -198,6 +199,11 @@ func doCheck(id, tier string) int {
 			}
 			violations += len(fs)
 			f := fs[0]
+			reported++
+			if reported > 6 {
+				lines = append(lines, fmt.Sprintf("  (also) kind=%s site=%s runs_affected=%d first_run=%d :: %s", k.kind, k.site, len(fs), f.Idx, f.V.Detail))
+				continue
+			}
 			rf := &ReplayFile{Property: id, Engine: a.run.spec.name, Label: a.run.label, Extra: a.run.extra, Race: a.run.spec.race, Seed: seed, Idx: f.Idx, Expect: f.V, Tape: f.Tape, Trace: f.Trace, Report: f.Report}
 			// obtain tape and trace when the worker could not deliver them (race, crash)
 			if len(rf.Tape) == 0 {
@@ -215,7 +221,14 @@ func doCheck(id, tier string) int {
 			writeJSON(path, rf)
 			if len(rf.Tape) > 0 && rf.Note == "" && minimised < 3 {
 				minimised++
-				mt, mres := minimise(a.cfg, b, rf.Tape, k, 400, 90*time.Second)
+				budget := 20 * time.Second
+				if minimised == 1 {
+					budget = 45 * time.Second
+				}
+				if tier == "thorough" {
+					budget = 120 * time.Second
+				}
+				mt, mres := minimise(a.cfg, b, rf.Tape, k, 1500, budget)
 				if mres != nil && len(mt) <= len(rf.Tape) {
 					rf.Tape = mt
 					if mres.res != nil {
@@ -382,8 +395,11 @@ func doReplay(path string) int {
 	if run.spec.race {
 		cfg.bin = bw.workerR
 	}
-	tf := filepath.Join(bw.scratch, "replay-tape.json")
-	writeJSON(tf, map[string]any{"tape": rf.Tape})
+	tf := ""
+	if len(rf.Tape) > 0 {
+		tf = filepath.Join(bw.scratch, "replay-tape.json")
+		writeJSON(tf, map[string]any{"tape": rf.Tape})
+	}
 	o := runOnce(cfg, rf.Idx, tf, 300*time.Second)
 	if o.infra != "" {
 		infra("%s", o.infra)
